@@ -56,7 +56,7 @@ def parseMember (s : String) : Option Member :=
   | _ => none
 
 def parsePolicy : String → Option Policy
-  | "none" => some .none | "bump" => some .bump | "same" => some .same | "lose" => some .lose | _ => none
+  | "none" => some .none | "bump" => some .bump | "same" => some .same | "lose" => some .lose | "sameeq" => some .sameEq | _ => none
 
 def timerStr : Timer → String
   | .probe t => s!"probe {t}"
